@@ -419,6 +419,21 @@ def check_c17(tier, seed):
         a2 = sim_collect(prop, tier, seed, binary=vbin, tag="-featured")
         lines += a2["lines"]
         violations += a2["violations"]
+    # ... and a calling crate that is #![no_std] itself while rrtk is built with std: to_dyn! must expand
+    # and behave there too (an expansion that names `std::` does not even compile)
+    nd = os.path.join(VERIF, "callers", "nostd")
+    rn = run(["cargo", "run", "--release", "--offline"], cwd=nd, timeout=1800)
+    if rn.returncode != 0 or "DONE nostd-caller" not in rn.stdout:
+        sig = "C17|to_dyn_no_std_caller|" + ("compile" if "could not compile" in rn.stdout else "run")
+        dest_dir = os.path.join(REPLAYS, prop)
+        os.makedirs(dest_dir, exist_ok=True)
+        dest = os.path.join(dest_dir, "nostd-caller.build")
+        what = [l for l in rn.stdout.splitlines() if l.startswith("error") or "panicked" in l]
+        open(dest, "w").write("# a #![no_std] calling crate that uses to_dyn! on the Rc and Ptr variants: cd /verif/callers/nostd && cargo run --release --offline\n"
+                              "# %s\nexpect=%s\n" % ((what or ["failed"])[0], sig))
+        violations += 1
+        lines.append("VIOLATION property=%s replay=%s" % (prop, dest))
+        lines.append("  signature=%s detail=%s" % (sig, (what or ["failed"])[0][:300]))
     # (b) shuttle-controlled threads
     build_shuttle()
     sdir = os.path.join(REPLAYS, "tmp", "shuttle-%d" % os.getpid())
@@ -722,7 +737,7 @@ def check_c16(tier, seed):
 
 # ---------------------------------------------------------------- C19: feature configurations
 
-VARIANTS = ["std_nodim", "libm_dim", "libm_nodim", "micromath_dim", "micromath_nodim"]
+VARIANTS = ["std_nodim", "stdrelease_nodim", "libm_dim", "libm_nodim", "micromath_dim", "micromath_nodim"]
 import re as _re
 _VAL = _re.compile(r"[0-9a-f]{8}")
 
@@ -895,11 +910,11 @@ def check_c19(tier, seed, only_run=None, only_mode=None, only_build=None):
             "trace_lines_compared": ops_compared,
             "runs_per_hour": int(compared / max(wall, 1e-6) * 3600),
             "exemptions": "values of runs containing an EWMA or exponent node: libm within 1e-4 of the run's value scale, micromath category+timestamp only",
-            "components": {"real": ["every rrtk type reached by the node, comb, device and settable worlds, in six feature configurations"],
+            "components": {"real": ["every rrtk type reached by the node, comb, device and settable worlds, in seven build configurations"],
                            "stub": ["leaf sensors, clocks, motors, reference build as oracle"]},
             "exhaustive": False,
         },
-        "assumptions": ["the std + dim_check_release build is the reference; agreement of all six builds is what is checked",
+        "assumptions": ["the std + dim_check_release build is the reference; agreement of all seven builds is what is checked (the seventh: default features with the rrtk package compiled without debug assertions)",
                         "plan generation is build-independent (no float-library calls on the generation path that differ between builds)"] + ASSUMPTIONS[3:],
         "wall_s": round(wall, 3),
         "violations": violations,
@@ -960,6 +975,13 @@ def main():
         build_shuttle()
         r = run([SHUTTLE_BIN] + kv["args"].split() + ["--out", "/dev/null", "--dir", os.path.join(REPLAYS, "tmp", "shuttle-replay")], timeout=6 * 3600)
         if dies(r.returncode) or r.returncode == 124:
+            print("VIOLATION property=%s replay=%s" % (prop, replay))
+            sys.exit(1)
+        sys.exit(0)
+    if replay and replay.endswith(".build"):
+        rn = run(["cargo", "run", "--release", "--offline"], cwd=os.path.join(VERIF, "callers", "nostd"), timeout=1800)
+        print(rn.stdout[-2000:])
+        if rn.returncode != 0 or "DONE nostd-caller" not in rn.stdout:
             print("VIOLATION property=%s replay=%s" % (prop, replay))
             sys.exit(1)
         sys.exit(0)
